@@ -262,6 +262,21 @@ def coq_check(pid, extra_targets=()):
     }
 
 
+def coqchk(pid, timeout=2400):
+    """Independent re-check of the compiled theorem files (thorough tier)."""
+    mods = ["%s.Props.%s.%s" % (LOGICAL, pid, os.path.basename(p)[:-2]) for p in props_files(pid)]
+    if not mods:
+        return {"ran": False}
+    t = time.time()
+    with Lock("coq"):
+        rc, o = sh(["coqchk", "-silent", "-o", "-Q", ".", LOGICAL] + mods, cwd=COQ, timeout=timeout)
+    axioms = []
+    m = re.search(r"\* Axioms:(.*?)(\n\* |\Z)", o, re.S)
+    if m:
+        axioms = [x.strip() for x in m.group(1).strip().split("\n") if x.strip() and "<none>" not in x]
+    return {"ran": True, "rc": rc, "wall_s": round(time.time() - t, 1), "axioms": axioms, "tail": o[-1500:]}
+
+
 # ---------------------------------------------------------------------------- ml
 
 def ml_build(pid):
@@ -705,6 +720,11 @@ def main(argv=None):
             run.violation("build", {"what": "forbidden vernacular in the development", "hits": coq["gate"]}, False)
         if extra and not coq["extract_ok"]:
             run.violation("build", {"what": "model extraction no longer builds", "make": coq["make_tail"]}, False)
+        if tier == "thorough" and not replay and all(t["ok"] for t in coq["theorems"]):
+            chk = coqchk(pid)
+            run.cov.setdefault("extra", {})["coqchk"] = chk
+            if chk.get("ran") and chk["rc"] != 0:
+                run.violation("build", {"what": "coqchk rejects the compiled theorem files", "output": chk["tail"]}, False)
     # 3 go driver
     have_driver = os.path.isdir(os.path.join(ROOT, "go", "cmd", run.low))
     if have_driver and not run.violations:
